@@ -690,3 +690,43 @@ CORPUS += [
     V("C12", "pdp-starts-not-halved", "rl4co/envs/routing/pdp/env.py", 'num_possible_starts = (td["locs"].shape[-2] - 1) // 2', 'num_possible_starts = (td["locs"].shape[-2] - 1)', "C12.d"),
     V("C12", "eq-pdp-starts-size-call", "rl4co/envs/routing/pdp/env.py", 'num_possible_starts = (td["locs"].shape[-2] - 1) // 2', 'num_possible_starts = (td["locs"].size(-2) - 1) // 2', None),
 ]
+
+# ---- structural (value-graph) versions of former text matches: C19 / C20
+_DU = "rl4co/data/utils.py"
+_EB = "rl4co/envs/common/base.py"
+_CV = R + "cvrp/env.py"
+CORPUS += [
+    V("C19", "npz-batch-size-from-axis-1", _DU, "batch_size = x_dict[list(x_dict.keys())[0]].shape[0]", "batch_size = x_dict[list(x_dict.keys())[0]].shape[1]", "C19.a"),
+    V("C19", "npz-loads-two-keys-only", _DU, "    x_dict = dict(x)", "    x_dict = {k: x[k] for k in list(x.keys())[:2]}", "C19.a"),
+    V("C19", "eq-npz-load-inlined", _DU, "    x = np.load(filename)\n    x_dict = dict(x)", "    x_dict = dict(np.load(filename))", None),
+    V("C19", "cvrp-load-multiplies-capacity", _CV, 'td_load["demand"] / td_load["capacity"][:, None]', 'td_load["demand"] * td_load["capacity"][:, None]', "C19.b"),
+    V("C19", "eq-cvrp-load-unsqueeze", _CV, 'td_load["demand"] / td_load["capacity"][:, None]', 'td_load["demand"] / td_load["capacity"].unsqueeze(-1)', None),
+    V("C19", "env-pickle-drops-rng-state", _EB, 'state["rng"] = state["rng"].get_state()', 'state["rng"] = None', "C19.d"),
+    V("C19", "env-unpickle-does-not-restore-rng", _EB, 'self.rng.set_state(state["rng"])', "pass", "C19.d"),
+    V("C19", "eq-env-pickle-rename", _EB, '        state = self.__dict__.copy()\n        state["rng"] = state["rng"].get_state()\n        return state', '        d = self.__dict__.copy()\n        d["rng"] = d["rng"].get_state()\n        return d', None),
+    V("C19", "rollout-pickle-drops-bl-vals", BLF, 'del state["dataset"]', 'del state["bl_vals"]', "C19.d"),
+    V("C19", "checkpoint-prefix-stripped-everywhere", RFF, 'k.replace("baseline.", "", 1)', 'k.replace("baseline.", "")', "C19.e"),
+    V("C19", "checkpoint-baseline-loaded-before-setup", RFF, "            loaded.setup()\n            loaded.post_setup_hook()\n", "", "C19.e"),
+    V("C20", "warmup-alpha-updated-one-epoch-too-long", BLF, 'if kw["epoch"] < self.n_epochs:', 'if kw["epoch"] <= self.n_epochs:', "C20.d"),
+    V("C20", "warmup-alpha-minus-one", BLF, '(kw["epoch"] + 1) / float(self.n_epochs)', '(kw["epoch"] - 1) / float(self.n_epochs)', "C20.d"),
+    V("C20", "eq-warmup-alpha-no-float", BLF, '(kw["epoch"] + 1) / float(self.n_epochs)', '(1 + kw["epoch"]) / self.n_epochs', None),
+    V("C20", "warmup-n-epochs-zero-allowed", BLF, "assert n_epochs > 0", "assert n_epochs >= 0", "C20.d"),
+    V("C20", "warmup-alpha-starts-at-one", BLF, "        self.alpha = 0\n", "        self.alpha = 1\n", "C20.d"),
+    V("C20", "eq-warmup-eval-yoda", BLF, "if self.alpha == 1:", "if 1 == self.alpha:", None),
+    V("C20", "warmup-eval-branches-swapped", BLF, "if self.alpha == 1:", "if self.alpha == 0:", "C20.d"),
+]
+
+# ---- C17 on the value graph
+CORPUS += [
+    V("C17", "eval-rewards-prepended", EVF, "rewards_list.append(rewards)", "rewards_list.insert(0, rewards)", "C17.b"),
+    V("C17", "eval-rewards-concat-reversed", EVF, "rewards = torch.cat(rewards_list)", "rewards = torch.cat(rewards_list[::-1])", "C17.b"),
+    V("C17", "eq-eval-rewards-concat-dim0", EVF, "rewards = torch.cat(rewards_list)", "rewards = torch.cat(rewards_list, dim=0)", None),
+    V("C17", "extra-shifted-index", DSF, "data[self.key_name] = self.extra[idx]", "data[self.key_name] = self.extra[idx - 1]", "C17.c"),
+    V("C17", "collate-stack-reversed", DSF, "torch.stack([b[key] for b in batch])", "torch.stack([b[key] for b in reversed(batch)])", "C17.d"),
+    V("C17", "eq-collate-stack-renamed", DSF, "torch.stack([b[key] for b in batch])", "torch.stack([item[key] for item in batch], 0)", None),
+    V("C17", "fastgen-sorted-index", DSF, "{key: item[index] for key, item in self.data.items()}", "{key: item[sorted(index)] for key, item in self.data.items()}", "C17.d"),
+    V("C17", "extra-stored-flipped", DSF, "        self.extra = extra\n", "        self.extra = extra.flip(0)\n", "C17.c"),
+    V("C17", "add-key-sorts-values", DSF, "return ExtraKeyDataset(self, value, key_name=key)", "return ExtraKeyDataset(self, value.sort().values, key_name=key)", "C17.c"),
+    V("C17", "val-loader-shuffled", "rl4co/models/rl/common/base.py", "return self._dataloader(self.val_dataset, self.val_batch_size)", "return self._dataloader(self.val_dataset, self.val_batch_size, True)", "C17.b"),
+    V("C17", "eq-val-loader-explicit-false", "rl4co/models/rl/common/base.py", "return self._dataloader(self.val_dataset, self.val_batch_size)", "return self._dataloader(self.val_dataset, self.val_batch_size, shuffle=False)", None),
+]
